@@ -257,11 +257,21 @@ class RuleGen:
                 return [{"$and_any_order": self.shuffled([a, b])}] + (
                     [x for x in [self.op_name(ops[2])] if x is not None] if len(ops) > 2 and rng.random() < 0.5 else [])
         out = []
-        for k in range(n):
+        k = 0
+        while k < n:
+            if k + 1 < n and rng.random() < f.ogroups * f.group_times:
+                # an operand-level group with times: two consecutive operands, each matching one alternative
+                a, b = self.op_name(ops[k]), self.op_name(ops[k + 1])
+                if a is not None and b is not None:
+                    alts = [a] if a == b else [a, b]
+                    out.append({"$or": self.shuffled(alts + [self.decoy_operand()]), "times": rng.choice([2, 2, {"min": 1, "max": 2}, 1, 3])})
+                    k += 2
+                    continue
             node = "@any" if (rng.random() < f.any and ops[k] != "") else self.operand_node(ops[k])
             if node is None:
                 break
             out.append(node)
+            k += 1
         if len(out) >= 2 and rng.random() < 0.08:
             out = out[rng.randint(1, len(out) - 1):]     # near miss: names that only occur in a LATER operand than written
         if out and len(out) == len(ops) and rng.random() < f.excess_ops:
